@@ -839,7 +839,8 @@ public:
             op["approximate"] = approx;
             if (approx)
                 op["difference"] = (double)g.range(0, span) / 4.0;
-            op["optimized"] = !approx && g.chance(0.4);
+            // (approximate solutions can carry the flag too: BIT* sets it from the stored cost; they are still ordered by goal difference)
+            op["optimized"] = g.chance(approx ? 0.5 : 0.4);
             op["cost"] = (double)g.range(0, span) / 2.0;
             op["length"] = (double)g.range(0, span) / 2.0;
             if (g.chance(0.1))
